@@ -529,6 +529,9 @@ Record rsite := mkSite {
   s_params : list (nat * param);    (* keyword arguments in call order: (name, kind) *)
   s_nout : nat }.                   (* results (jax.eval_shape at the site) *)
 
+(* counter family of _allocate_friendly_name: (namespace, base, "unique" | "shared") *)
+Definition rfam (c : rsite) : nat * bool := (s_base c, s_unique c).
+
 Section RealKey.
 Variables HT FPT D : Type.
 Variable hash : list nat -> HT.     (* hash(arr.tobytes()) *)
@@ -676,6 +679,29 @@ Proof.
   - injection Hs as Ho _. destruct (Hid c1 c2 L1 L2 U1 U2 Hq Ho) as [-> ->]. reflexivity.
 Qed.
 
+(* end to end for the real key *)
+Theorem real_dedup_sound :
+  (forall b1 b2, hash b1 = hash b2 -> b1 = b2) ->
+  (forall a b, fp a = fp b -> a = b) ->
+  (forall c1 c2, live c1 -> live c2 -> s_unique c1 = false -> s_unique c2 = false ->
+     s_qualname c1 = s_qualname c2 -> s_obj c1 = s_obj c2 ->
+     s_state c1 = s_state c2 /\ s_inst_type c1 = s_inst_type c2) ->
+  (forall c1 c2, live c1 -> live c2 -> s_unique c1 = true -> s_unique c2 = true ->
+     s_is_class c1 = false -> s_is_class c2 = false ->
+     s_qualname c1 = s_qualname c2 -> s_state c1 = s_state c2) ->
+  (forall c1 c2, rsem c1 = rsem c2 -> s_nout c1 = s_nout c2) ->
+  forall sites, Forall (fun ps => clean (fst ps)) sites ->
+  forall c, In c (st_calls _ _ _ (lower_sites rsite fkey D fkey_eq_dec real_key rsem rnin s_nout rfam sites)) ->
+    d_sem _ _ (c_def _ _ _ c) = rsem (c_site _ _ _ c) /\
+    c_nin _ _ _ c = d_nin _ _ (c_def _ _ _ c) /\ c_nout _ _ _ c = d_nout _ _ (c_def _ _ _ c).
+Proof.
+  intros Hh Hf Hid Hfun Hno sites Hs c Hc.
+  pose proof (real_key_adequate Hh Hf Hid Hfun) as Hka.
+  split.
+  - eapply dedup_sound_on; eauto.
+  - eapply arity_matches_on; eauto. exact real_key_fixes_nin.
+Qed.
+
 (* ---- the two holes of the unchanged code: key components that change the denotation but not the key *)
 Definition ground (c : rsite) := (s_qualname c, s_inst_type c, s_state c, s_in_avals c, s_params c).
 
@@ -702,7 +728,6 @@ End RealKey.
 (* fingerprints modelled by the fingerprinted data itself (injective by construction) *)
 Definition ckey : rsite -> fkey (list nat) nat := real_key (list nat) nat (fun b => b) (fun s => s).
 Definition ckey_eq_dec := fkey_eq_dec (list nat) nat (list_eq_dec Nat.eq_dec) Nat.eq_dec.
-Definition rfam (c : rsite) : nat * bool := (s_base c, s_unique c).
 
 Definition predict (sites : list (rsite * option nat)) :=
   lower_sites rsite (fkey (list nat) nat) unit ckey_eq_dec ckey (fun _ => tt) rnin s_nout rfam sites.
